@@ -416,9 +416,10 @@ structure Heap where
   conns : List Conn
   callers : List Caller
   classes : List ClassDef
+  datas : List J           -- the caller's structured `data=` objects (dicts / lists …): read by `json.dumps` only
   deriving DecidableEq, Repr
 
-def Heap.empty : Heap := ⟨[], [], [], [], [], [], [], []⟩
+def Heap.empty : Heap := ⟨[], [], [], [], [], [], [], [], []⟩
 
 /-- `conn_data` of a connection constructor -/
 inductive Target where
@@ -433,11 +434,19 @@ inductive Own where
   | list (l : Nat)
   deriving DecidableEq, Repr
 
+/-- the `data=` argument: nothing, bytes, text, or a structured object of the caller (a reference) -/
+inductive DataArg where
+  | none
+  | bytes (b : List Nat)
+  | str (s : Str)
+  | obj (r : Nat)
+  deriving DecidableEq, Repr
+
 structure Args where
   path : Str
   method : Option Str
   params : Option Nat
-  data : Body
+  data : DataArg
   headers : Option Nat
   resp : Option J      -- the body of the (fake) response: `none` = empty, else the parsed json
   raw : Bool           -- `raw_response=True`
@@ -447,6 +456,7 @@ inductive Op where
   | newList (as : List Adapter)
   | listAppend (l : Nat) (a : Adapter)
   | newDict (d : UDict)
+  | newData (v : J)           -- a structured `data=` object of the caller
   | newParams (d : Dict)      -- a params object: dict with non-str values, or list / tuple of pairs
   | newClass (bases mro : List Nat) (pmap : Option UDict) (own : List (Str × Comps)) (delegates : List (Str × Str))
   | mk (t : Target) (own : Own) (plain : Bool)
@@ -536,6 +546,13 @@ def optParams (H : Heap) : Option Nat → Option (Option UDict)
     | some d => (toUDict d).map some
     | none => none
 
+/-- what `do_request` reads of the `data=` argument (a structured object is only read) -/
+def optData (H : Heap) : DataArg → Option Body
+  | .none => some .none
+  | .bytes b => some (.bytes b)
+  | .str s => some (.str s)
+  | .obj r => (H.datas[r]?).map .json
+
 /-- `headers.copy() if headers else {}`: the content of the new dict object -/
 def copyHeaders : Option Dict → Dict
   | some d => d
@@ -573,8 +590,8 @@ def applyAllH : List Adapter → Heap → Nat → Str → Heap × Except Err Str
 accepts `None`). `RequestArguments.headers` is a new dict object (reference `H.dicts.length`) holding a
 copy of the caller's headers; adapters and the id / content-type assignments write to that object. -/
 def request (H : Heap) (c : Nat) (args : Args) : Heap × Except Err Sent :=
-  match connView H c, optDict H args.headers, optParams H args.params with
-  | some (cn, impl, as), some hd, some pd =>
+  match connView H c, optDict H args.headers, optParams H args.params, optData H args.data with
+  | some (cn, impl, as), some hd, some pd, some body =>
     let w := H.dicts.length
     let H1 := { H with dicts := H.dicts ++ [copyHeaders hd] }
     match applyAllH as H1 w args.path with
@@ -584,12 +601,12 @@ def request (H : Heap) (c : Nat) (args : Args) : Heap × Except Err Sent :=
       | none => (H2, .error .keyError)
       | some hs =>
         let ra : RA := { path, headers := hs }
-        let s := assemble impl ra args.method pd args.data (respFold as (decodeResp args.raw args.resp))
-        let H3 := { H2 with dicts := H2.dicts.set w (finalHeaders impl ra args.data) }
+        let s := assemble impl ra args.method pd body (respFold as (decodeResp args.raw args.resp))
+        let H3 := { H2 with dicts := H2.dicts.set w (finalHeaders impl ra body) }
         match s.genId with
         | some _ => ({ H3 with impls := H3.impls.set cn.impl { impl with ctr := impl.ctr + 1 } }, .ok s)
         | none => (H3, .ok s)
-  | _, _, _ => (H, .error .keyError)
+  | _, _, _, _ => (H, .error .keyError)
 
 /-- `MCallerHttp.get_conn()` called from a method declared with `components` -/
 def getConn (H : Heap) (k : Nat) (comps : Option (List Str)) : Heap × Except Err Nat :=
@@ -703,6 +720,7 @@ def step (H : Heap) : Op → Heap × Except Err Reply
       match H.lists[cn.alist]? with
       | some as => ({ H with lists := H.lists.set cn.alist (as ++ [a]) }, .ok .unit)
       | none => (H, .error .keyError)
+  | .newData v => ({ H with datas := H.datas ++ [v] }, .ok (.ref H.datas.length))
   | .newParams d =>
     if d.all (fun kv => kv.2.text.isSome) then
       ({ H with dicts := H.dicts ++ [d], userDicts := H.userDicts ++ [H.dicts.length] }, .ok (.ref H.dicts.length))
